@@ -4,7 +4,6 @@
 package c19ops
 
 import (
-	"bytes"
 	"encoding/hex"
 	"fmt"
 	"io"
@@ -326,21 +325,4 @@ func enc(alg uint8, s, n int) string {
 func mac(alg uint8, s, n int) string {
 	m, err := security.NASMacCalculate(alg, key(s), uint32(s)*0x01010101, uint8(s)&31, uint8(s)&1, msg(s, n))
 	return fmt.Sprintf("%x %v", m, err)
-}
-
-// Shared read-only scenario: several threads encode, and read accessors of, one decoded message.
-func SharedMessage() *nas.Message {
-	in := append([]byte{}, gmmMsg...)
-	m := nas.NewMessage()
-	if err := m.PlainNasDecode(&in); err != nil {
-		panic("c19ops: shared message does not decode: " + err.Error())
-	}
-	return m
-}
-
-func ReadShared(m *nas.Message) string {
-	buf := new(bytes.Buffer)
-	err := m.GmmMessageEncode(buf)
-	rr := m.GmmMessage.RegistrationRequest
-	return fmt.Sprintf("%x %v %d %x %d", buf.Bytes(), err, m.GmmHeader.GetMessageType(), rr.MobileIdentity5GS.GetMobileIdentity5GSContents(), rr.NgksiAndRegistrationType5GS.GetRegistrationType5GS())
 }
